@@ -208,6 +208,47 @@ func parseModel(raw string, vars []*Term) map[string]*big.Int {
 		case "(":
 			op := next()
 			switch op {
+			case "fp": // (fp #b0 #b01111111111 #x0000000000000) -> IEEE bits as an integer
+				sign, exp, man := next(), next(), next()
+				next() // )
+				bits := new(big.Int)
+				parse := func(tok string) (*big.Int, int) {
+					v := new(big.Int)
+					if strings.HasPrefix(tok, "#b") {
+						v.SetString(tok[2:], 2)
+						return v, len(tok) - 2
+					}
+					if strings.HasPrefix(tok, "#x") {
+						v.SetString(tok[2:], 16)
+						return v, 4 * (len(tok) - 2)
+					}
+					return v, 0
+				}
+				sv, _ := parse(sign)
+				ev, _ := parse(exp)
+				mv, _ := parse(man)
+				bits.Lsh(sv, 63)
+				bits.Or(bits, new(big.Int).Lsh(ev, 52))
+				bits.Or(bits, mv)
+				return bits
+			case "_": // (_ +zero 11 53) (_ -zero 11 53) (_ NaN 11 53) (_ +oo 11 53) (_ -oo 11 53)
+				kind := next()
+				next()
+				next()
+				next() // )
+				switch kind {
+				case "+zero":
+					return big.NewInt(0)
+				case "-zero":
+					return new(big.Int).Lsh(big.NewInt(1), 63)
+				case "+oo":
+					return new(big.Int).Lsh(big.NewInt(0x7ff), 52)
+				case "-oo":
+					return new(big.Int).Lsh(big.NewInt(0xfff), 52)
+				case "NaN":
+					return new(big.Int).Lsh(big.NewInt(0x7ff8), 48)
+				}
+				return nil
 			case "-":
 				v := parseVal()
 				if i < len(toks) && toks[i] != ")" {
